@@ -34,6 +34,10 @@ type Opts struct {
 	StreamViews bool
 	// Unions lets a share of the designs carry OneOf attributes in request/response bodies (gen/union.go).
 	Unions bool
+	// Multipart lets a share of the body-carrying methods be MultipartRequest() endpoints in Runtime mode (gen/multipart.go).
+	Multipart bool
+	// MultipartFew divides that share by three (checks that cannot decide multipart exchanges: C14).
+	MultipartFew bool
 }
 
 type g struct {
